@@ -28,7 +28,7 @@ class Run:
         self.pid, self.tier, self.seed = pid, tier, seed
         self.outcomes = []; self.cur = None; self.t0 = time.time()
         self.known_findings = json.load(open(os.path.join(VERIF, 'known_findings.json')))['findings'] if os.path.exists(os.path.join(VERIF, 'known_findings.json')) else []
-        self.assumptions = []
+        self.assumptions = []; self.printed_known = set()
         z3.set_param('smt.random_seed', seed % (2 ** 31)); z3.set_param('sat.random_seed', seed % (2 ** 31))
         self.replay_dir = os.path.join(VERIF, 'replays', pid)
         self.solver_timeout_ms = 120000 if tier == 'quick' else 600000
@@ -118,9 +118,15 @@ class Run:
             raise E.Inconclusive(f'solver disagreement z3={expect} cvc5={out}')
         return out
 
-    def prove(self, label, pc, claim, replay=None, classify=None, detail=None):
-        """claim must hold on every model of pc.  On a counterexample: classify -> known finding role or None; replay natively."""
+    def prove(self, label, pc, claim, replay=None, classify=None, detail=None, abstraction=None):
+        """claim must hold on every model of pc.  On a counterexample: classify -> known finding role or None; replay natively.
+        abstraction=[(term, fresh_var)]: first try with the terms replaced by unconstrained variables (sound for `unsat`); fall back to the exact query."""
         self.reached(label)
+        if abstraction:
+            cs = [z3.substitute(c, *abstraction) for c in list(pc) + [z3.Not(claim)]]
+            r, _ = self.solve(cs, label + ' [abstracted: ' + ', '.join(str(v) for _, v in abstraction) + ']')
+            if r == 'unsat':
+                return True
         r, model = self.solve(list(pc) + [z3.Not(claim)], label)
         if r == 'unsat':
             return True
@@ -131,7 +137,9 @@ class Run:
         cex = {'obligation': self.cur.name, 'assertion': label, 'role': role, 'model': model_json(model), 'detail': detail}
         for kf in self.known_findings:
             if kf.get('status', 'known') == 'known' and kf['property'] == self.pid and kf['obligation'] == self.cur.name and kf.get('role') == role and role is not None:
-                print(f"KNOWN-FINDING: property={self.pid} {kf['what']}", flush=True)
+                if kf['id'] not in self.printed_known:
+                    print(f"KNOWN-FINDING: property={self.pid} {kf['what']}", flush=True)
+                    self.printed_known.add(kf['id'])
                 cex['known'] = kf['id']
                 self.cur.known.append(cex)
                 return False
